@@ -125,7 +125,8 @@ def setop(sym, op, NA, NB, ncols, dom, bs=None, presorted=False):
 # --------------------------------------------------------------------------
 BOUNDS = {
     'quick': 'a, b: row counts symbolic in [0,2] with 2 columns / [0,3] with 1 column; cells None|int in [0,2) or '
-             'int in [0,3) or None|int|{a,b}; strict symbolic; buffersize {None,1}',
+             'int in [0,3) or None|int|{a,b} (a data row may equal the header); strict symbolic; buffersize {None,1}; presorted inputs '
+             'given as lists (assumed sorted); record* operators with 3 fields in a non-self-inverse order',
     'thorough': 'row counts up to 3x2 / 2x3 with 2 columns, 4x2 / 3x3 with 1 column (sized so that the trees exhaust within budget)',
 }
 OUTSIDE = 'rows whose length differs from the header (statement: rectangular); more rows/columns than the bound; presorted=True (C11)'
